@@ -94,7 +94,7 @@ NAME_ALPHA = list("abcdxyT01_- é")
 UNITS_NUM = ["-", "m", "kg", "mm", "°C", "m/s", "1/s", "%", "N m", "Text", "ONOFF", "µm"]
 SHEET_NAMES = ["Sheet1", "data", "in put", "Tab_2", "résumé", "A", "x1", "sheet one", "Ωmega", "out", "in", "input_2",
                "123", "a.b", "tab-3"]
-TEXT_FIXED = ["a\nb", "a\tb", " lead\n", "x\n\ny", "-", "nan", "None", "1.5", "12", "k:", "**x", ":a", " u ", "x" * 40, "TRUE", "2020-01-02", "a=b", "é µ",
+TEXT_FIXED = ["ratio a:b", "12:30", "C:\\data", "x: y", "a:b:c", "t 1:2 ", "a\nb", "a\tb", " lead\n", "x\n\ny", "-", "nan", "None", "1.5", "12", "k:", "**x", ":a", " u ", "x" * 40, "TRUE", "2020-01-02", "a=b", "é µ",
               "#N/A", "  lead", "trail  ", "0", "*", "a:b"]
 FLOATS_FIXED = [0.0, -0.0, 1.0, 2.0, -3.0, 2.5, 0.1, 1e20, 1e15, 1e16, -1e-7, 123456.789, 3.14159265358979,
                 1e-300, 1e300, 999999999999999.0, 0.001, 100.0, float("nan")]
@@ -106,9 +106,19 @@ PATTERNS = [None, None, r"", r"in", r"S", r"[a-z]", r".*t", r"data$", r"[A-Z]", 
 
 
 def classify_py(s):
-    """block marker class of a string cell by the real regex (None if it is no marker)"""
-    from pdtable.io.parsers.blocks import _re_block_marker
-    return _re_block_marker.match(s) is not None
+    """is the string cell a block start marker?  Written from the StarTable rules, independently of the
+    implementation's regex (the well-formedness predicate must not move with the code under test):
+      `**x` / `***x`   exactly two or three leading stars;
+      `:x` `::x` `:::x` one to three leading colons and no colon afterwards;
+      `key:`           a non-empty colon-free key, one colon, then nothing but whitespace."""
+    stars = len(s) - len(s.lstrip("*"))
+    if stars in (2, 3):
+        return True
+    colons = len(s) - len(s.lstrip(":"))
+    if 1 <= colons <= 3 and ":" not in s[colons:]:
+        return True
+    i = s.find(":")
+    return i > 0 and all(is_space(c) for c in s[i + 1:])
 
 
 def is_space(c):
@@ -1063,7 +1073,10 @@ def fixed_cases(seed):
     t1 = tab("t1", True, [col("only", "num", "mm", ["2.5"])])
     rh = dict(r, name="rh", built_order=[4, 0, 1, 2, 3])      # built in another column order, re-arranged in place
     th = dict(t, name="th", built_order=[1, 0, 3, 2, 4])
-    shapes = [[rh], [th, rh], [z], [zt], [r0], [t0], [r], [t], [z, z], [zt, z], [z, zt], [r, z], [z, r], [t, z, t0, r0], [r0, t0, zt, r, t1],
+    # first-column text with a colon in the middle: no marker, the block must not end there
+    rcol = tab("rc", False, [col("what", "text", "text", ["plain", "ratio a:b", "12:30", "C:\\data", "x: y", "last"]),
+                             col("v", "num", "m", ["1.0", "2.0", "3.0", "4.0", "5.0", "6.0"])])
+    shapes = [[rcol], [rh], [th, rh], [z], [zt], [r0], [t0], [r], [t], [z, z], [zt, z], [z, zt], [r, z], [z, r], [t, z, t0, r0], [r0, t0, zt, r, t1],
               [t1], [t1, z], []]
     cases = []
     for i, tabs in enumerate(shapes):
